@@ -4,6 +4,7 @@ CONSTANTS
   Algo = "asis"
   SeedCopyreg = "live"
   InitGuard = FALSE
+  CacheById = FALSE
   KwOnlyOK = TRUE
   SharedCtx = FALSE
   CtxCopy = TRUE
